@@ -207,7 +207,9 @@ def gen_history(rng, p, nq):
 
 def run(replay=None):
     ck = common.Check("C15", level="proof")
+    rep = common.regen_translators()      # Gen/SetVar_gen.v: the two setVar functions, accepted by parsed shape
     proof = ck.proof_obligations()
+    ck.coverage["translators"] = {k: v for k, v in rep.items() if "SetVar" in k or v != "ok"}
     ok_h, log_h = common.build_harness(["bin/expr"])
     if not ok_h:
         ck.violation("build", "harness does not build against /repo working tree", {"log": log_h[-3000:]}, no_input=True)
